@@ -17,3 +17,76 @@ Theorem C15_reinit_object :
          crun tab g act fuel (init_object s) inp 0 [] = arun tab g act fuel [init_entry] inp 0 [].
 Proof. exact DriverSim.reinit_object. Qed.
 Print Assumptions C15_reinit_object.
+
+From YG Require Import LRBase DriverSim Drivers Independence.
+Close Scope Z_scope.
+Open Scope nat_scope.
+
+(* histories of any length on one parser (ParserInit before every parse, global or object mode, accepted and rejected inputs mixed): the list of results is the list of results of the same parses on a fresh parser; good = cell 0 of the stack array holds the initial entry, or the array is still empty *)
+Theorem C15_histories :
+  forall (tab : table) (g : grammar) (act : semact) (obj : bool) (fuel : nat) 
+           (inps : list (list tok)) (s : pst),
+         good s ->
+         history_tab tab obj g act fuel s inps =
+         map (fun inp : list tok => arun tab g act fuel [init_entry] inp 0 []) inps.
+Proof. exact Independence.history_independent. Qed.
+Print Assumptions C15_histories.
+
+From YG Require Import LRBase DriverSim Drivers Independence.
+Close Scope Z_scope.
+Open Scope nat_scope.
+
+(* no run, however it ends, overwrites cell 0 of the stack array - the fact object-mode ParserInit relies on *)
+Theorem C15_cell0_preserved :
+  forall (tab : table) (g : grammar) (act : semact) (fuel : nat) (s : pst) (inp : list tok) (x : entry),
+         hd_error (stk s) = Some x -> hd_error (stk (cfinal tab g act fuel s inp)) = Some x.
+Proof. exact Independence.cfinal_head. Qed.
+Print Assumptions C15_cell0_preserved.
+
+From YG Require Import LRBase DriverSim Drivers Independence.
+Close Scope Z_scope.
+Open Scope nat_scope.
+
+(* the driver in small steps (one iteration of the Parser loop per step) is the driver *)
+Theorem C15_small_steps :
+  forall (tab : table) (g : grammar) (act : semact) (n : nat) (s : pst) (inp : list tok) 
+           (pos : nat) (reds : list nat),
+         outcome (iter tab g act n (s, {| l_inp := inp; l_pos := pos; l_reds := reds; l_status := Running |})) =
+         crun tab g act n s inp pos reds.
+Proof. exact Independence.steps_are_crun. Qed.
+Print Assumptions C15_small_steps.
+
+From YG Require Import LRBase DriverSim Drivers Independence.
+Close Scope Z_scope.
+Open Scope nat_scope.
+
+(* contexts own their stacks: under every schedule of steps, context i is where it would be after the same number of its own steps alone *)
+Theorem C15_interleaving :
+  forall (tab : table) (g : grammar) (act : semact) (sched : list nat) (H : heap) (i : nat),
+         sys_run tab g act sched H i = iter tab g act (count_occ Nat.eq_dec sched i) (H i).
+Proof. exact Independence.interleaving_independent. Qed.
+Print Assumptions C15_interleaving.
+
+From YG Require Import LRBase DriverSim Drivers Independence.
+Close Scope Z_scope.
+Open Scope nat_scope.
+
+(* ... and reports what the abstract machine reports for its own input, whatever the other contexts parse and however the steps are interleaved *)
+Theorem C15_contexts_independent :
+  forall (tab : table) (g : grammar) (act : semact) (inps : nat -> list tok) 
+           (olds : nat -> pst) (sched : list nat) (i : nat),
+         (forall j : nat, good (olds j)) ->
+         let H0 := fun j : nat => start (init_object (olds j)) (inps j) in
+         outcome (sys_run tab g act sched H0 i) =
+         arun tab g act (count_occ Nat.eq_dec sched i) [init_entry] (inps i) 0 [].
+Proof. exact Independence.contexts_independent. Qed.
+Print Assumptions C15_contexts_independent.
+
+(* the statement separates the designs: with ONE shared stack (the default mode used from two places at once, without
+   PushContex/PopContex) a two-step schedule makes a parse of a sentence fail; on two contexts it does not *)
+Example C15_shared_stack_refuted :
+  l_status (snd (shared_run toy_tab toy_g toy_act [0; 1; 1; 1; 1] toy_start) 1) = Finished (RRej 0 [])
+  /\ l_status (snd (shared_run toy_tab toy_g toy_act [1; 1; 1; 1] toy_start) 1) = Finished (RAcc 7%Z [0])
+  /\ outcome (sys_run toy_tab toy_g toy_act [0; 1; 1; 1; 1] (fun j => start (init_object {| stk := []; sp := 0 |}) [(2, 7%Z)]) 1) = RAcc 7%Z [0].
+Proof. exact (conj shared_stack_interferes_refuted (conj alone_accepts contexts_do_not_interfere)). Qed.
+Print Assumptions C15_shared_stack_refuted.
